@@ -7,7 +7,10 @@ obligation IDs.  Nothing in here is executable Rust; the executable text always 
 
 
 class Clause:
-    def __init__(self, label, text, props=(), guard=None, finding=None):
+    def __init__(self, label, text, props=(), guard=None, finding=None, stub_only=False):
+        # stub_only: the clause names a ghost event by definition; it is emitted only where the
+        # function appears as a stub (callers rely on it), not where the function body is verified
+        self.stub_only = stub_only
         self.label = label
         self.text = text.strip()
         self.props = list(props)
@@ -17,8 +20,8 @@ class Clause:
         self.finding = finding
 
 
-def C(label, text, props=(), guard=None, finding=None):
-    return Clause(label, text, props, guard, finding)
+def C(label, text, props=(), guard=None, finding=None, stub_only=False):
+    return Clause(label, text, props, guard, finding, stub_only)
 
 
 class Loop:
